@@ -12,7 +12,7 @@
 (* stays at its position, a loss skips forward).  Identical packets         *)
 (* (GBN's own retransmissions) are matched to the earliest candidate, which *)
 (* is the most permissive choice.                                           *)
-(* Lines: {"ev":"reset"} | {"ev":"gtx"|"grx","side":"c"|"s","k":type,       *)
+(* Lines: {"ev":"reset"} | {"ev":"gtx"|"grx","side":..,"st":stream,"k":type, *)
 (*         "seq":..,"len":..,"crc":..}                                      *)
 (***************************************************************************)
 EXTENDS Naturals, Sequences, Json, TLC
@@ -20,9 +20,13 @@ CONSTANT TraceFile
 Trace == ndJsonDeserialize(TraceFile)
 
 VARIABLES l,
-          sent,   \* [side -> [class -> sequence of packets handed to send()]]
-          pos     \* [side -> [class -> index in sent of the last packet the peer received]]
-Sides == {"c", "s"}
+          sent,   \* [stream -> [class -> sequence of packets handed to send()]]
+          pos     \* [stream -> [class -> index in sent of the last packet its reader received]]
+\* The streams are named by the ids the connections themselves report: a
+\* connection's gtx lines carry its send stream, its grx lines its receive
+\* stream; the sender of a stream and its receiver must agree on the name
+\* (C17: the client's send stream is the server's receive stream).
+Streams == {Trace[i].st : i \in {j \in 1..Len(Trace) : Trace[j].ev \in {"gtx", "grx"}}}
 \* A connection has two senders: the send loop (DATA packets, pings and
 \* retransmissions: type 2) and the receive loop (ACK 3, NACK 4).  Each calls
 \* the transport's send function sequentially, so each class is a FIFO of its
@@ -31,13 +35,12 @@ Sides == {"c", "s"}
 \* across classes.
 Classes == {"data", "ack"}
 Class(r) == IF r.k = 2 THEN "data" ELSE "ack"
-Peer(x) == IF x = "c" THEN "s" ELSE "c"
 Pkt(r) == <<r.k, r.seq, r.len, r.crc>>
 Ev == Trace[l]
 Is(e) == l <= Len(Trace) /\ Trace[l].ev = e
 
-Empty == [x \in Sides |-> [c \in Classes |-> <<>>]]
-Zero == [x \in Sides |-> [c \in Classes |-> 0]]
+Empty == [x \in Streams |-> [c \in Classes |-> <<>>]]
+Zero == [x \in Streams |-> [c \in Classes |-> 0]]
 Init == l = 1 /\ sent = Empty /\ pos = Zero
 
 TReset == /\ Is("reset") /\ l' = l + 1 /\ sent' = Empty /\ pos' = Zero
@@ -49,11 +52,11 @@ Handshake(r) == r.k \in {1, 5, 6}
 
 TTx == /\ Is("gtx") /\ l' = l + 1 /\ UNCHANGED pos
        /\ IF Handshake(Ev) THEN UNCHANGED sent
-          ELSE sent' = [sent EXCEPT ![Ev.side][Class(Ev)] = Append(@, Pkt(Ev))]
+          ELSE sent' = [sent EXCEPT ![Ev.st][Class(Ev)] = Append(@, Pkt(Ev))]
 
 TRx == /\ Is("grx") /\ l' = l + 1 /\ UNCHANGED sent
        /\ IF Handshake(Ev) THEN UNCHANGED pos
-          ELSE LET from == Peer(Ev.side)
+          ELSE LET from == Ev.st
                    c == Class(Ev)
                    lo == IF pos[from][c] = 0 THEN 1 ELSE pos[from][c]
                    cand == {j \in lo..Len(sent[from][c]) : sent[from][c][j] = Pkt(Ev)}
